@@ -13,9 +13,11 @@
      shifted L n s s'   s' is s moved by L: see C14_shifted_means
      exec_with ec fuel toks = exec() with `ec` running the children of blocks (exec_f (S d) k = exec_with (exec_f d k) k)
    Vocabulary (PlayFromP.v): retime tp e = e with time - tp; kept tp e = (NoteOn|Voice|CC|Meta|SysEx) at or after tp;
-     latest_cc_ev tp no evs / latest_voice_ev tp evs = the LAST controller-`no` / program event of the list before tp
-     (C14_latest_cc_means); compile() applies play_from to the time-sorted list, where that is the latest in time
-     (C14_playfrom_latest_in_time); pf_early / pf_restored / pf_kept = the three segments of the result. *)
+     chan_of e = the channel of e as the writer sends it (0..15; the channel field itself when that is 0..15: C14_playfrom_channel);
+     latest_cc_ev tp ch no evs / latest_voice_ev tp ch evs = the LAST controller-`no` / program event ON CHANNEL ch of the
+     list before tp (C14_latest_cc_means); compile() applies play_from to the time-sorted list, where that is the latest
+     in time (C14_playfrom_latest_in_time); pf_early / pf_restored / pf_kept = the three segments of the result;
+     pf_restored = pf_restored_cc ++ pf_restored_voice, both PER CHANNEL (a track may use several channels). *)
 From Sakura.Model Require Import Base Cursor Length Event Writer Song Token LoopMachine LexCore RunCore Tie Compile.
 From Sakura.Proofs Require Import SortP TimeP PlayFromP.
 From Coq Require Import Sorted.
@@ -181,9 +183,10 @@ Qed.
 (* ================================================================================================ *)
 (* PlayFrom: Track::play_from on ARBITRARY event lists                                               *)
 
-(* the result is three segments: Meta/SysEx from before the point at tick 0; the restored controllers (ascending
-   number) and program; everything kept, re-timed, in the original order.  So (d, first half): in the list
-   play_from returns every restored event stands before every kept one, a note at tick 0 included *)
+(* the result is three segments: Meta/SysEx from before the point at tick 0; the restored controllers (channel 0..15,
+   within a channel in ascending number) and then the restored programs (channel 0..15); everything kept, re-timed, in
+   the original order.  So (d, first half): in the list play_from returns every restored event stands before every kept
+   one, a note at tick 0 included *)
 Theorem C14_playfrom : forall (tp : Z) (evs : list event),
   play_from tp evs = pf_early tp evs ++ pf_restored tp evs ++ pf_kept tp evs.
 Proof. exact play_from_decomposition. Qed.
@@ -208,46 +211,65 @@ Theorem C14_playfrom_early : forall (tp : Z) (evs : list event),
   pf_early tp evs = map at_zero (filter (fun e => (is_type Meta e || is_type SysEx e) && (e_time e <? tp)) evs).
 Proof. exact play_from_early. Qed.
 
-(* (c) per controller number 0..127: exactly one restoring event when the controller was written before the point,
-   none otherwise; at tick 0, on the channel of that LATEST write, carrying its value as the writer sends it (0..127) *)
-Theorem C14_playfrom_restored_cc : forall (tp : Z) (evs : list event) (no : Z), 0 <= no < 128 ->
-  filter (fun e => e_v1 e =? no) (pf_restored_cc tp evs)
-  = match latest_cc_ev tp no evs with
-    | Some e => [ev_cc 0 (e_ch e) no (value_range 0 (e_v2 e) 127)]
+(* the channel the statements speak of is the channel byte the writer sends (the field clamped to 0..15); for the
+   events the compiler produces - channel 0..15 - it is the channel field itself *)
+Theorem C14_playfrom_channel : forall e : event,
+  chan_of e = Z.min (Z.max (e_ch e) 0) 15 /\ midi_ch (e_ch e) = chan_of e /\ (0 <= e_ch e <= 15 -> chan_of e = e_ch e).
+Proof. exact chan_of_writer. Qed.
+
+(* (c) PER CHANNEL 0..15 and controller number 0..127: exactly one restoring event when that controller was written ON
+   THAT CHANNEL before the point, none otherwise; at tick 0, on that channel, carrying the value of the LATEST such
+   write as the writer sends it (0..127) *)
+Theorem C14_playfrom_restored_cc : forall (tp : Z) (evs : list event) (ch no : Z), 0 <= ch < 16 -> 0 <= no < 128 ->
+  filter (fun e => (e_ch e =? ch) && (e_v1 e =? no)) (pf_restored_cc tp evs)
+  = match latest_cc_ev tp ch no evs with
+    | Some e => [ev_cc 0 ch no (value_range 0 (e_v2 e) 127)]
     | None => []
     end.
 Proof. exact restored_cc_unique. Qed.
 
+(* ... and nothing else is in that segment: every restored controller event is a controller change at tick 0 on a channel
+   0..15 for a number 0..127 that WAS written on that channel before the point (no event for a pair never set) *)
 Theorem C14_playfrom_restored_cc_shape : forall (tp : Z) (evs : list event) (e : event), In e (pf_restored_cc tp evs) ->
-  e_type e = ControllChange /\ e_time e = 0 /\ 0 <= e_v1 e < 128 /\ 0 <= e_v2 e <= 127 /\
-  exists e0, latest_cc_ev tp (e_v1 e) evs = Some e0 /\ e_ch e = e_ch e0 /\ e_v2 e = value_range 0 (e_v2 e0) 127.
+  e_type e = ControllChange /\ e_time e = 0 /\ 0 <= e_ch e < 16 /\ 0 <= e_v1 e < 128 /\ 0 <= e_v2 e <= 127 /\
+  exists e0, latest_cc_ev tp (e_ch e) (e_v1 e) evs = Some e0 /\ e_v2 e = value_range 0 (e_v2 e0) 127.
 Proof. exact restored_cc_shape. Qed.
 
-(* the program: the latest Voice before the point, on its channel *)
+(* the programs, after all the controllers (so that a bank select precedes its program): PER CHANNEL the latest Voice
+   before the point, on that channel; exactly one when the channel had a program change before the point (and its
+   number is not negative), none otherwise *)
 Theorem C14_playfrom_restored_voice : forall (tp : Z) (evs : list event),
-  pf_restored tp evs = pf_restored_cc tp evs ++
-    match latest_voice_ev tp evs with Some e => if e_v1 e >=? 0 then [ev_voice 0 (e_ch e) (e_v1 e)] else [] | None => [] end.
-Proof. reflexivity. Qed.
+  pf_restored tp evs = pf_restored_cc tp evs ++ pf_restored_voice tp evs /\
+  forall ch : Z, 0 <= ch < 16 ->
+    filter (fun e => e_ch e =? ch) (pf_restored_voice tp evs)
+    = match latest_voice_ev tp ch evs with Some e => if e_v1 e >=? 0 then [ev_voice 0 ch (e_v1 e)] else [] | None => [] end.
+Proof. intros tp evs. exact (conj eq_refl (restored_voice_unique tp evs)). Qed.
 
-(* "latest" on a list: the last such event of the list before the point *)
-Theorem C14_latest_cc_means : forall (tp no : Z) (evs : list event) (e : event),
-  latest_cc_ev tp no evs = Some e <->
-  exists l1 l2, evs = l1 ++ e :: l2 /\ e_type e = ControllChange /\ e_time e < tp /\ e_v1 e = no /\
-    Forall (fun x => ~ (e_type x = ControllChange /\ e_time x < tp /\ e_v1 x = no)) l2.
+Theorem C14_playfrom_restored_voice_shape : forall (tp : Z) (evs : list event) (e : event), In e (pf_restored_voice tp evs) ->
+  e_type e = Voice /\ e_time e = 0 /\ 0 <= e_ch e < 16 /\ 0 <= e_v1 e /\
+  exists e0, latest_voice_ev tp (e_ch e) evs = Some e0 /\ e_v1 e = e_v1 e0.
+Proof. exact restored_voice_shape. Qed.
+
+(* "latest" on a list: the last such event of the list before the point - of that channel *)
+Theorem C14_latest_cc_means : forall (tp ch no : Z) (evs : list event) (e : event),
+  latest_cc_ev tp ch no evs = Some e <->
+  exists l1 l2, evs = l1 ++ e :: l2 /\ e_type e = ControllChange /\ e_time e < tp /\ chan_of e = ch /\ e_v1 e = no /\
+    Forall (fun x => ~ (e_type x = ControllChange /\ e_time x < tp /\ chan_of x = ch /\ e_v1 x = no)) l2.
 Proof. exact latest_cc_some. Qed.
 
-Theorem C14_latest_cc_none : forall (tp no : Z) (evs : list event),
-  latest_cc_ev tp no evs = None <-> Forall (fun x => ~ (e_type x = ControllChange /\ e_time x < tp /\ e_v1 x = no)) evs.
+Theorem C14_latest_cc_none : forall (tp ch no : Z) (evs : list event),
+  latest_cc_ev tp ch no evs = None <->
+  Forall (fun x => ~ (e_type x = ControllChange /\ e_time x < tp /\ chan_of x = ch /\ e_v1 x = no)) evs.
 Proof. exact latest_cc_none. Qed.
 
-Theorem C14_latest_voice_means : forall (tp : Z) (evs : list event) (e : event),
-  latest_voice_ev tp evs = Some e <->
-  exists l1 l2, evs = l1 ++ e :: l2 /\ e_type e = Voice /\ e_time e < tp /\
-    Forall (fun x => ~ (e_type x = Voice /\ e_time x < tp)) l2.
+Theorem C14_latest_voice_means : forall (tp ch : Z) (evs : list event) (e : event),
+  latest_voice_ev tp ch evs = Some e <->
+  exists l1 l2, evs = l1 ++ e :: l2 /\ e_type e = Voice /\ e_time e < tp /\ chan_of e = ch /\
+    Forall (fun x => ~ (e_type x = Voice /\ e_time x < tp /\ chan_of x = ch)) l2.
 Proof. exact latest_voice_some. Qed.
 
-Theorem C14_latest_voice_none : forall (tp : Z) (evs : list event),
-  latest_voice_ev tp evs = None <-> Forall (fun x => ~ (e_type x = Voice /\ e_time x < tp)) evs.
+Theorem C14_latest_voice_none : forall (tp ch : Z) (evs : list event),
+  latest_voice_ev tp ch evs = None <-> Forall (fun x => ~ (e_type x = Voice /\ e_time x < tp /\ chan_of x = ch)) evs.
 Proof. exact latest_voice_none. Qed.
 
 (* compile() hands play_from the TIME-SORTED events of each track (after the pending ties are flushed) ... *)
@@ -260,23 +282,28 @@ Theorem C14_playfrom_applied : forall s : song,
 Proof. intros s. exact (conj (tracks_for_writer_play_from s) (tracks_for_writer_off s)). Qed.
 
 (* ... and there the last such event of the list is the LATEST IN TIME before the point (every other write of that
-   controller before the point is not later), and among the writes of that very tick the one written last; a
-   controller is left alone exactly when the track never wrote it before the point.  evs: the track's events in the
-   order the commands were executed (Sub{} and TIME may have written them out of time order) *)
-Theorem C14_playfrom_latest_in_time : forall (tp no : Z) (evs : list event),
-  (forall e, latest_cc_ev tp no (events_sort evs) = Some e ->
-     In e evs /\ e_type e = ControllChange /\ e_time e < tp /\ e_v1 e = no /\
-     Forall (fun x => e_type x = ControllChange -> e_v1 x = no -> e_time x < tp -> e_time x <= e_time e) evs /\
-     exists a b, at_time (e_time e) evs = a ++ e :: b /\ Forall (fun x => ~ (e_type x = ControllChange /\ e_v1 x = no)) b) /\
-  (latest_cc_ev tp no (events_sort evs) = None <->
-     Forall (fun x => ~ (e_type x = ControllChange /\ e_time x < tp /\ e_v1 x = no)) evs) /\
-  (forall e, latest_voice_ev tp (events_sort evs) = Some e ->
-     In e evs /\ e_type e = Voice /\ e_time e < tp /\
-     Forall (fun x => e_type x = Voice -> e_time x < tp -> e_time x <= e_time e) evs /\
-     exists a b, at_time (e_time e) evs = a ++ e :: b /\ Forall (fun x => e_type x <> Voice) b).
+   controller on that channel before the point is not later), and among the writes of that very tick the one written
+   last; a controller of a channel is left alone exactly when the track never wrote it on that channel before the point;
+   the same for the program of a channel.  evs: the track's events in the order the commands were executed (Sub{} and
+   TIME may have written them out of time order) *)
+Theorem C14_playfrom_latest_in_time : forall (tp ch no : Z) (evs : list event),
+  (forall e, latest_cc_ev tp ch no (events_sort evs) = Some e ->
+     In e evs /\ e_type e = ControllChange /\ e_time e < tp /\ chan_of e = ch /\ e_v1 e = no /\
+     Forall (fun x => e_type x = ControllChange -> chan_of x = ch -> e_v1 x = no -> e_time x < tp -> e_time x <= e_time e) evs /\
+     exists a b, at_time (e_time e) evs = a ++ e :: b /\
+       Forall (fun x => ~ (e_type x = ControllChange /\ chan_of x = ch /\ e_v1 x = no)) b) /\
+  (latest_cc_ev tp ch no (events_sort evs) = None <->
+     Forall (fun x => ~ (e_type x = ControllChange /\ e_time x < tp /\ chan_of x = ch /\ e_v1 x = no)) evs) /\
+  (forall e, latest_voice_ev tp ch (events_sort evs) = Some e ->
+     In e evs /\ e_type e = Voice /\ e_time e < tp /\ chan_of e = ch /\
+     Forall (fun x => e_type x = Voice -> chan_of x = ch -> e_time x < tp -> e_time x <= e_time e) evs /\
+     exists a b, at_time (e_time e) evs = a ++ e :: b /\ Forall (fun x => ~ (e_type x = Voice /\ chan_of x = ch)) b) /\
+  (latest_voice_ev tp ch (events_sort evs) = None <->
+     Forall (fun x => ~ (e_type x = Voice /\ e_time x < tp /\ chan_of x = ch)) evs).
 Proof.
-  intros tp no evs.
-  exact (conj (latest_cc_in_time tp no evs) (conj (latest_cc_sorted_none tp no evs) (latest_voice_in_time tp evs))).
+  intros tp ch no evs.
+  exact (conj (latest_cc_in_time tp ch no evs) (conj (latest_cc_sorted_none tp ch no evs)
+        (conj (latest_voice_in_time tp ch evs) (latest_voice_sorted_none tp ch evs)))).
 Qed.
 
 (* (d) after the writer's normalize + stable sort: at tick 0 the early events, the restored ones, then whatever the
@@ -347,8 +374,32 @@ Definition ex14_evs := [ev_cc 0 0 7 100; ev_voice 0 0 4; ev_note 0 0 60 86 100; 
 Example C14_example_playfrom :
   play_from 96 ex14_evs
   = [ev_meta 0 255 81 3 [7; 161; 32]; ev_cc 0 0 7 90; ev_voice 0 0 4; ev_note 0 0 62 86 100; ev_cc 4 0 10 64; ev_note 96 0 64 86 100] /\
-  option_map e_v2 (latest_cc_ev 96 7 ex14_evs) = Some 90 /\ option_map e_v1 (latest_voice_ev 96 ex14_evs) = Some 4 /\
+  option_map e_v2 (latest_cc_ev 96 0 7 ex14_evs) = Some 90 /\ option_map e_v1 (latest_voice_ev 96 0 ex14_evs) = Some 4 /\
+  latest_cc_ev 96 1 7 ex14_evs = None /\ latest_voice_ev 96 1 ex14_evs = None /\
   map e_type (normalize_and_sort (play_from 96 ex14_evs)) = [Meta; ControllChange; Voice; NoteOn; ControllChange; NoteOff; NoteOn; NoteOff].
+Proof. vm_compute. repeat split. Qed.
+
+(* TWO CHANNELS ON ONE TRACK:  CH(1) @5 y7,100 c CH(2) @9 y7,50 d CH(1) ? e  - the remaining note e sounds on channel 1
+   (0 in the file), so the program and the volume set on THAT channel before the point are re-issued on it, and those of
+   channel 2 on channel 2: per channel the controllers, then per channel the programs *)
+Definition ex14_two := [ev_voice 0 0 4; ev_cc 0 0 7 100; ev_note 0 0 60 86 100;
+                        ev_voice 96 1 8; ev_cc 96 1 7 50; ev_note 96 1 62 86 100; ev_note 192 0 64 86 100].
+(* the code points of the text  CH(1) @5 y7,100 c CH(2) @9 y7,50 d CH(1) ? e *)
+Definition ex14_two_src : list Z :=
+  [67; 72; 40; 49; 41; 32; 64; 53; 32; 121; 55; 44; 49; 48; 48; 32; 99; 32;
+   67; 72; 40; 50; 41; 32; 64; 57; 32; 121; 55; 44; 53; 48; 32; 100; 32; 67; 72; 40; 49; 41; 32; 63; 32; 101].
+
+Example C14_example_playfrom_two_channels :
+  play_from 192 ex14_two = [ev_cc 0 0 7 100; ev_cc 0 1 7 50; ev_voice 0 0 4; ev_voice 0 1 8; ev_note 0 0 64 86 100] /\
+  pf_restored_cc 192 ex14_two = [ev_cc 0 0 7 100; ev_cc 0 1 7 50] /\
+  pf_restored_voice 192 ex14_two = [ev_voice 0 0 4; ev_voice 0 1 8] /\
+  option_map e_v2 (latest_cc_ev 192 0 7 ex14_two) = Some 100 /\ option_map e_v2 (latest_cc_ev 192 1 7 ex14_two) = Some 50 /\
+  option_map e_v1 (latest_voice_ev 192 0 ex14_two) = Some 4 /\ option_map e_v1 (latest_voice_ev 192 1 ex14_two) = Some 8 /\
+  latest_cc_ev 192 2 7 ex14_two = None /\ latest_cc_ev 192 0 10 ex14_two = None /\ latest_voice_ev 192 2 ex14_two = None /\
+  (* the whole pipeline on the source text: B0 07 64, B1 07 32, C0 04, C1 08, then the note on channel 0 *)
+  option_map fst (match compile ex14_two_src with Ok r => Some r | _ => None end)
+  = Some [77; 84; 104; 100; 0; 0; 0; 6; 0; 1; 0; 1; 0; 96; 77; 84; 114; 107; 0; 0; 0; 26;
+          0; 176; 7; 100; 0; 177; 7; 50; 0; 192; 4; 0; 193; 8; 0; 144; 64; 100; 86; 128; 64; 100; 0; 255; 47; 0].
 Proof. vm_compute. repeat split. Qed.
 
 (* y7,-1 c ? d  : the value in force is 0 (as written to the file);   CH(2) y7,100 CH(3) @5 c ? d : each on its channel;
@@ -359,7 +410,14 @@ Example C14_example_playfrom_corners :
     = [ev_cc 0 1 7 100; ev_voice 0 2 4; ev_note 0 2 62 86 100] /\
   (let evs := [ev_cc 192 0 7 50; ev_cc 0 0 7 100; ev_note 0 0 60 86 100; ev_note 288 0 62 86 100] in
    play_from 288 evs = [ev_cc 0 0 7 100; ev_note 0 0 62 86 100] /\                 (* list order *)
-   play_from 288 (events_sort evs) = [ev_cc 0 0 7 50; ev_note 0 0 62 86 100]).       (* what compile() does *)
+   play_from 288 (events_sort evs) = [ev_cc 0 0 7 50; ev_note 0 0 62 86 100]) /\     (* what compile() does *)
+  (* the same controller on two channels, the later write on the OTHER channel: both are in force, both re-issued;
+     a later write on the same channel replaces the earlier one of that channel only *)
+  play_from 96 [ev_cc 0 3 7 100; ev_cc 10 5 7 50; ev_cc 20 3 7 90; ev_note 96 3 62 86 100]
+    = [ev_cc 0 3 7 90; ev_cc 0 5 7 50; ev_note 0 3 62 86 100] /\
+  (* channel fields outside 0..15 (no command produces them) count as the channel the writer sends them on *)
+  play_from 96 [ev_cc 0 (-2) 7 100; ev_cc 10 0 7 50; ev_voice 0 99 4; ev_note 96 0 62 86 100]
+    = [ev_cc 0 0 7 50; ev_voice 0 15 4; ev_note 0 0 62 86 100].
 Proof. vm_compute. repeat split. Qed.
 
 Print Assumptions C14_time_formula.
@@ -388,6 +446,8 @@ Print Assumptions C14_playfrom_early.
 Print Assumptions C14_playfrom_restored_cc.
 Print Assumptions C14_playfrom_restored_cc_shape.
 Print Assumptions C14_playfrom_restored_voice.
+Print Assumptions C14_playfrom_restored_voice_shape.
+Print Assumptions C14_playfrom_channel.
 Print Assumptions C14_latest_cc_means.
 Print Assumptions C14_latest_cc_none.
 Print Assumptions C14_latest_voice_means.
